@@ -40,8 +40,49 @@ type Program struct {
 	concrete []types.Type
 }
 
+// initAlias names the function literals of package-level variable initialisers after the variable
+// they are stored in ("plusFunc", "builderPool.New") instead of their ordinal in init.
+var initAlias = map[*ssa.Function]string{}
+
+func computeInitAliases(pkg *ssa.Package) {
+	init := pkg.Func("init")
+	if init == nil {
+		return
+	}
+	for _, b := range init.Blocks {
+		for _, in := range b.Instrs {
+			st, ok := in.(*ssa.Store)
+			if !ok {
+				continue
+			}
+			var fn *ssa.Function
+			switch v := st.Val.(type) {
+			case *ssa.Function:
+				fn = v
+			case *ssa.MakeClosure:
+				fn, _ = v.Fn.(*ssa.Function)
+			}
+			if fn == nil || fn.Parent() != init {
+				continue
+			}
+			switch a := st.Addr.(type) {
+			case *ssa.Global:
+				initAlias[fn] = a.Name()
+			case *ssa.FieldAddr:
+				if g, ok := a.X.(*ssa.Global); ok {
+					st := g.Type().(*types.Pointer).Elem().Underlying().(*types.Struct)
+					initAlias[fn] = g.Name() + "." + st.Field(a.Field).Name()
+				}
+			}
+		}
+	}
+}
+
 // fnName gives the contract key of an SSA function: "f", "(*T).m", "f$1", "init$2".
 func fnName(f *ssa.Function) string {
+	if a, ok := initAlias[f]; ok {
+		return a
+	}
 	if f.Parent() != nil {
 		return fnName(f.Parent()) + f.Name()[strings.LastIndex(f.Name(), "$"):]
 	}
@@ -71,6 +112,7 @@ func loadProgram(dir string) (*Program, error) {
 	p := &Program{Dir: dir, Pkg: pkgs[0], SSA: spkgs[0], Prog: prog,
 		Funcs: map[string]*ssa.Function{}, Names: map[*ssa.Function]string{},
 		tagOf: map[string]int{}, tagType: map[int]types.Type{}, ifaceID: map[string]int{}}
+	computeInitAliases(spkgs[0])
 	var add func(f *ssa.Function)
 	add = func(f *ssa.Function) {
 		if f.Synthetic != "" && !strings.HasPrefix(f.Synthetic, "package init") {
@@ -242,4 +284,21 @@ func (p *Program) closedImpls(t types.Type) ([]types.Type, bool) {
 		return nil, false
 	}
 	return out, true
+}
+
+// ifaceWithMethod finds an interface type with exactly one method named m among the types the
+// package type-asserts to (the function-local `namespaceURL` interfaces).
+func (p *Program) ifaceWithMethod(m string) types.Type {
+	for _, n := range p.Order {
+		for _, b := range p.Funcs[n].Blocks {
+			for _, in := range b.Instrs {
+				if ta, ok := in.(*ssa.TypeAssert); ok {
+					if it, ok := ta.AssertedType.Underlying().(*types.Interface); ok && it.NumMethods() == 1 && it.Method(0).Name() == m {
+						return ta.AssertedType
+					}
+				}
+			}
+		}
+	}
+	return nil
 }
